@@ -884,6 +884,24 @@ func executeAsyncRule(c *Ctx) {
 			}
 		}
 	}
+	// the shared executor is never modified by running an execution: its context and policies are written only
+	// when it is built (NewExecutor) or copied (WithContext)
+	ix := BuildIndex(c.P)
+	for field, allowed := range map[string]map[string]bool{
+		"ctx":      {"failsafe.NewExecutor": true, "failsafe.(*executor).WithContext": true},
+		"policies": {"failsafe.NewExecutor": true},
+	} {
+		good := true
+		for _, w := range ix.Writers(FieldRef{Type: "executor", Pkg: "failsafe", Field: field}) {
+			if !allowed[c.fn(w)] {
+				good = false
+				c.Fail("failsafe.executor."+field+"#writers", c.P.FuncPos(w), "the shared executor's "+field+" is written by "+c.fn(w)+": executions started from one executor must not affect each other (a per-execution context written back into the executor makes later executions children of an earlier one, so cancelling one cancels the others)", "")
+			}
+		}
+		if good {
+			c.Ok("failsafe.executor."+field+"#writers", "", "written only when the executor is built or copied")
+		}
+	}
 	if okCancel {
 		c.Ok(name, pos, "the root async execution owns its cancel function (Cancel is atomic with the stored cause)")
 	}
